@@ -9,6 +9,7 @@ REGISTRY = {
     "C06": "harness.c06_partial",
     "C07": "harness.c07_rtp",
     "C08": "harness.c08_sctp",
+    "C09": "harness.c09_sdp",
     "C10": "harness.c10_jitter",
     "C11": "harness.c11_nackrtx",
     "C12": "harness.c12_router",
